@@ -28,6 +28,11 @@ import seismic_zfp.utils as m_utils                    # noqa: E402
 if not os.path.realpath(seismic_zfp.__file__).startswith(REPO + os.sep):
     print(f'HARNESS-ERROR seismic_zfp imported from {seismic_zfp.__file__}, expected under {REPO}')
     sys.exit(3)
+for _m in ('segyio_emulator', 'accessors', 'cropping', 'open', 'tools', 'headers', 'version', 'seismicfile'):
+    try:
+        __import__('seismic_zfp.' + _m)
+    except Exception:                                   # optional dependencies of a module
+        pass
 
 STUB_VERSION = '0.4.1'
 
@@ -255,6 +260,81 @@ class _Null:
 _NULL = _Null()
 
 
+# ------------------------------------------------------------------------------------------------
+# process-wide state of the library: every run stands for a fresh process
+# ------------------------------------------------------------------------------------------------
+
+import functools as _functools
+
+_LRU = type(_functools.lru_cache(maxsize=1)(lambda: None))
+_SCALARS = (int, float, str, bool, bytes, tuple, frozenset, type(None))
+_CONTAINERS = (dict, list, set)
+_LIB_STATE = None
+
+
+def _holders():
+    for mname in sorted(sys.modules):
+        mod = sys.modules[mname]
+        if mod is None or not (mname == 'seismic_zfp' or mname.startswith('seismic_zfp.')):
+            continue
+        yield mod
+        for v in list(vars(mod).values()):
+            if isinstance(v, type) and getattr(v, '__module__', None) == mname:
+                yield v
+
+
+def _snapshot_library_state():
+    snap = {}
+    for h in _holders():
+        for attr, val in list(vars(h).items()):
+            if attr.startswith('__') and attr.endswith('__'):
+                continue
+            if isinstance(val, _CONTAINERS):
+                snap[(id(h), attr)] = ('c', val, val.copy())
+            elif isinstance(val, _SCALARS):
+                snap[(id(h), attr)] = ('s', val, None)
+            else:
+                snap[(id(h), attr)] = ('o', None, None)
+    return snap
+
+
+def reset_library_state():
+    """Module-level and class-level state of the library goes back to what it was at import: containers
+    get their original content, rebound scalars their original value, attributes that did not exist are
+    removed (a pool or registry created lazily).  Functions, classes and modules are left alone (the
+    seams are rebound through those).  functools caches are emptied."""
+    global _LIB_STATE
+    if _LIB_STATE is None:
+        _LIB_STATE = _snapshot_library_state()
+        return
+    for h in _holders():
+        for attr, val in list(vars(h).items()):
+            if attr.startswith('__') and attr.endswith('__'):
+                continue
+            if isinstance(val, _LRU):
+                val.cache_clear()
+                continue
+            rec = _LIB_STATE.get((id(h), attr))
+            if rec is None:
+                if attr == 'open' or callable(val) or isinstance(val, types.ModuleType):
+                    continue
+                try:
+                    delattr(h, attr)
+                except (AttributeError, TypeError):
+                    pass
+            elif rec[0] == 'c':
+                orig = rec[1]
+                orig.clear()
+                if isinstance(orig, list):
+                    orig.extend(rec[2])
+                else:
+                    orig.update(rec[2])
+                if val is not orig:
+                    setattr(h, attr, orig)
+            elif rec[0] == 's' and val is not rec[1] and isinstance(val, _SCALARS):
+                setattr(h, attr, rec[1])
+
+
 def clear_loader_caches():
     """The eight class-level lru_caches of the loaders are process-global state."""
     for cls in (m_loader.SgzLoader3d, m_loader.SgzLoader2d):
@@ -383,6 +463,7 @@ def run_sim(fn, fs, chooser, step_cap=5000, mem_total=64 << 30, cpu_count=4, que
     r.exc = None
     r.harness_error = None
     core.SimQueue.cap_override = queue_cap
+    reset_library_state()
     with SimEnv(fs, mem_total=mem_total, cpu_count=cpu_count):
         sched = core.begin(chooser, step_cap)
         r.sched = sched
@@ -418,3 +499,6 @@ def run_sim(fn, fs, chooser, step_cap=5000, mem_total=64 << 30, cpu_count=4, que
         if sched.harness_error:
             raise core.HarnessError(sched.harness_error)
     return r
+
+
+reset_library_state()          # first call: takes the snapshot of the library's import-time state
